@@ -1,6 +1,7 @@
 import NxProofs.Frame
 import NxProofs.Gating
 import NxProps.C03
+import NxProofs.HandshakeClient
 /-!
 # C07 — malformed or hostile traffic cannot crash a transport or disturb other peers
 
@@ -124,6 +125,14 @@ theorem hostile_history_frame_buffers (env : Env) (other : Addr) : ∀ (h : List
     have h2 := frame_other_stream env x.now x.rnd t x.data x.addr other hs (fun e => hall x List.mem_cons_self e.symm)
     show bufLookup other (feed env (t.processData env x.now x.rnd x.data x.addr).t xs).liteBufs = _ ∧ _
     exact ⟨by rw [h1.1, h2], h1.2⟩
+
+/-- **a SYN/ACK from anybody, at any time after the handshake, changes nothing**: a SYN packet handed to a CONNECTED client
+    connection that has no SYN waiting for its acknowledgement (its SYN was acknowledged: the handshake is over) — late, duplicated
+    or crafted, with any parameters and any connection signature — leaves the connection exactly as it was: negotiated
+    parameters, the peer's signature, counters, timers, everything. (The class of seeded change C07-21.) -/
+theorem late_synack_changes_nothing (env : Env) (now : Time) (c : Conn) (p : Packet) (hp : p.type = TYPE_SYN)
+    (hst : c.state = STATE_CONNECTED) (hno : ∀ e ∈ c.ackEvents, e.1.1 ≠ TYPE_SYN) : (c.handle env now p).c = c :=
+  late_syn_inert env now c p hp hst hno
 
 /-! non-vacuity -/
 example : ServerT.conn { streams := [(portKey 1 10, { key := none, supFuncs := 0, maxSub := 0, minorVer := 0, addr := ("s", 1), port := 1, type := 10 })] }
